@@ -204,10 +204,18 @@ class CouplingLevyCopulaSimulation:
 
             return np.array(corners[-1][1])
 
-    def _coupling_states_for_a_slice(self, slice_fine_states: np.array):
+    def _coupling_states_for_a_slice(
+        self, slice_fine_states: np.array, initial_value=None
+    ):
         if len(slice_fine_states):
             slice_coupling_values = [None] * len(slice_fine_states)
-            current_value = np.array(self.coupling_process.grid.origin)
+            # value of the coarse process before these increments (the origin by default)
+            current_value = np.array(
+                self.coupling_process.grid.origin
+                if initial_value is None
+                else initial_value,
+                dtype=float,
+            )
             for k, deltaFineState in enumerate(slice_fine_states):
                 current_value += self.__coupling_state(deltaFineState)
                 slice_coupling_values[k] = current_value.copy()
@@ -240,15 +248,19 @@ class CouplingLevyCopulaSimulationFixedTimes(CouplingLevyCopulaSimulation):
         fines_states_values = np.zeros(shape=(dim, len(fine_states_increments) + 1))
         coarse_states_values = np.zeros(shape=(dim, len(fine_states_increments) + 1))
 
+        # the values at each date are the running sums of the jumps of all the past intervals
         for k, (slice_fine_states, slice_fine_values) in enumerate(
             zip(fine_states_increments, fines_states_allvalues)
         ):
-            if slice_fine_states:
+            if len(slice_fine_states):
                 slice_coarse_values = self._coupling_states_for_a_slice(
-                    slice_fine_states
+                    slice_fine_states, initial_value=coarse_states_values[:, k]
                 )
                 fines_states_values[:, k + 1] = slice_fine_values[-1]
                 coarse_states_values[:, k + 1] = slice_coarse_values[-1]
+            else:
+                fines_states_values[:, k + 1] = fines_states_values[:, k]
+                coarse_states_values[:, k + 1] = coarse_states_values[:, k]
 
         return fines_states_values, coarse_states_values
 
@@ -305,16 +317,20 @@ class CouplingLevyCopulaSimulationWithJumpTimes(CouplingLevyCopulaSimulation):
         fine_states_increments = fine_mc.states_increments
         fines_states_allvalues = fine_mc.values
         jump_times = fine_mc.times
-        coarse_states_values = np.empty_like(fines_states_allvalues)
+        coarse_states_values = [
+            np.empty(shape=(0, self._dimension)) for _ in fines_states_allvalues
+        ]
 
+        current_coarse_value = None  # running value of the coarse process over the past intervals
         for k, (slice_fine_states, slice_fine_values) in enumerate(
             zip(fine_states_increments, fines_states_allvalues)
         ):
-            if slice_fine_states:
+            if len(slice_fine_states):
                 slice_coarse_values = self._coupling_states_for_a_slice(
-                    slice_fine_states
+                    slice_fine_states, initial_value=current_coarse_value
                 )
-                coarse_states_values[k] = slice_coarse_values
+                coarse_states_values[k] = np.array(slice_coarse_values)
+                current_coarse_value = slice_coarse_values[-1]
 
         fines_states_values = np.concatenate(fines_states_allvalues).T
         coarse_states_values = np.concatenate(coarse_states_values).T
